@@ -241,7 +241,8 @@ UpdateCached(start, parent, hs) ==
                 offset == start - (cNum + 1)
             IN IF start = cNum + 1 /\ cCp # parent THEN no("ban")
                ELSE IF start # cNum + 1 /\ ch[start - cNum - 1] # parent THEN no("ignore")
-               ELSE IF end > nextNum /\ hs[Len(hs) - (end - nextNum)] # nextCp THEN no("ban")
+               \* (since fix 99a691b of /repo also a response that ends exactly AT the next check point must end with its value)
+               ELSE IF end >= nextNum /\ hs[Len(hs) - (end - nextNum)] # nextCp THEN no("ban")
                ELSE IF ~ZipAgrees(SeqFrom(ch, offset + 1), hs) THEN no("ignore")
                ELSE LET startIndex == Len(ch) - offset
                         newSize == IF end > nextNum THEN Len(hs) - (end - nextNum) ELSE Len(hs)
